@@ -461,6 +461,100 @@ package document
 //@        && docRaw(result0, 11) === rawDocField(envPayload(data), 11) && docRaw(result0, 12) === rawDocField(envPayload(data), 12) && docRaw(result0, 13) === rawDocField(envPayload(data), 13)
 //@   safety all
 
+// Export then import (specification-only function in zz_lemmas_verif.go): whenever the import of an exported document
+// succeeds, every file of the result has exactly the raw bytes of the exported file (absent files stay absent: empty
+// bytes). Proved from the two contracts above and the CBOR library round-trip axioms alone.
+//@ func roundTripLemma
+//@   props C15
+//@   requires doc != nil
+//@   proves "payload-of-the-exported-blob-is-the-record-of-the-raw-bytes": result1 == nil ==> envPayload(blob) === docPayload(doc)
+//@   proves "record-field-0": rawDocField(docPayload(doc), 0) === docRaw(doc, 0)
+//@   proves "same-field-0-in-the-decoded-payload": result1 == nil ==> rawDocField(envPayload(blob), 0) === rawDocField(docPayload(doc), 0)
+//@   proves "file-0-is-the-decoded-field": result1 == nil ==> result0 != nil && docRaw(result0, 0) === rawDocField(envPayload(blob), 0)
+//@   proves "file-0-is-the-record-field": result1 == nil ==> docRaw(result0, 0) === rawDocField(docPayload(doc), 0)
+//@   proves "file-0-round-trip": result1 == nil ==> result0 != nil && docRaw(result0, 0) === docRaw(doc, 0)
+//@   proves "record-field-1": rawDocField(docPayload(doc), 1) === docRaw(doc, 1)
+//@   proves "same-field-1-in-the-decoded-payload": result1 == nil ==> rawDocField(envPayload(blob), 1) === rawDocField(docPayload(doc), 1)
+//@   proves "file-1-is-the-decoded-field": result1 == nil ==> result0 != nil && docRaw(result0, 1) === rawDocField(envPayload(blob), 1)
+//@   proves "file-1-is-the-record-field": result1 == nil ==> docRaw(result0, 1) === rawDocField(docPayload(doc), 1)
+//@   proves "file-1-round-trip": result1 == nil ==> result0 != nil && docRaw(result0, 1) === docRaw(doc, 1)
+//@   proves "record-field-2": rawDocField(docPayload(doc), 2) === docRaw(doc, 2)
+//@   proves "same-field-2-in-the-decoded-payload": result1 == nil ==> rawDocField(envPayload(blob), 2) === rawDocField(docPayload(doc), 2)
+//@   proves "file-2-is-the-decoded-field": result1 == nil ==> result0 != nil && docRaw(result0, 2) === rawDocField(envPayload(blob), 2)
+//@   proves "file-2-is-the-record-field": result1 == nil ==> docRaw(result0, 2) === rawDocField(docPayload(doc), 2)
+//@   proves "file-2-round-trip": result1 == nil ==> result0 != nil && docRaw(result0, 2) === docRaw(doc, 2)
+//@   proves "record-field-3": rawDocField(docPayload(doc), 3) === docRaw(doc, 3)
+//@   proves "same-field-3-in-the-decoded-payload": result1 == nil ==> rawDocField(envPayload(blob), 3) === rawDocField(docPayload(doc), 3)
+//@   proves "file-3-is-the-decoded-field": result1 == nil ==> result0 != nil && docRaw(result0, 3) === rawDocField(envPayload(blob), 3)
+//@   proves "file-3-is-the-record-field": result1 == nil ==> docRaw(result0, 3) === rawDocField(docPayload(doc), 3)
+//@   proves "file-3-round-trip": result1 == nil ==> result0 != nil && docRaw(result0, 3) === docRaw(doc, 3)
+//@   proves "record-field-4": rawDocField(docPayload(doc), 4) === docRaw(doc, 4)
+//@   proves "same-field-4-in-the-decoded-payload": result1 == nil ==> rawDocField(envPayload(blob), 4) === rawDocField(docPayload(doc), 4)
+//@   proves "file-4-is-the-decoded-field": result1 == nil ==> result0 != nil && docRaw(result0, 4) === rawDocField(envPayload(blob), 4)
+//@   proves "file-4-is-the-record-field": result1 == nil ==> docRaw(result0, 4) === rawDocField(docPayload(doc), 4)
+//@   proves "file-4-round-trip": result1 == nil ==> result0 != nil && docRaw(result0, 4) === docRaw(doc, 4)
+//@   proves "record-field-5": rawDocField(docPayload(doc), 5) === docRaw(doc, 5)
+//@   proves "same-field-5-in-the-decoded-payload": result1 == nil ==> rawDocField(envPayload(blob), 5) === rawDocField(docPayload(doc), 5)
+//@   proves "file-5-is-the-decoded-field": result1 == nil ==> result0 != nil && docRaw(result0, 5) === rawDocField(envPayload(blob), 5)
+//@   proves "file-5-is-the-record-field": result1 == nil ==> docRaw(result0, 5) === rawDocField(docPayload(doc), 5)
+//@   proves "file-5-round-trip": result1 == nil ==> result0 != nil && docRaw(result0, 5) === docRaw(doc, 5)
+//@   proves "record-field-6": rawDocField(docPayload(doc), 6) === docRaw(doc, 6)
+//@   proves "same-field-6-in-the-decoded-payload": result1 == nil ==> rawDocField(envPayload(blob), 6) === rawDocField(docPayload(doc), 6)
+//@   proves "file-6-is-the-decoded-field": result1 == nil ==> result0 != nil && docRaw(result0, 6) === rawDocField(envPayload(blob), 6)
+//@   proves "file-6-is-the-record-field": result1 == nil ==> docRaw(result0, 6) === rawDocField(docPayload(doc), 6)
+//@   proves "file-6-round-trip": result1 == nil ==> result0 != nil && docRaw(result0, 6) === docRaw(doc, 6)
+//@   proves "record-field-7": rawDocField(docPayload(doc), 7) === docRaw(doc, 7)
+//@   proves "same-field-7-in-the-decoded-payload": result1 == nil ==> rawDocField(envPayload(blob), 7) === rawDocField(docPayload(doc), 7)
+//@   proves "file-7-is-the-decoded-field": result1 == nil ==> result0 != nil && docRaw(result0, 7) === rawDocField(envPayload(blob), 7)
+//@   proves "file-7-is-the-record-field": result1 == nil ==> docRaw(result0, 7) === rawDocField(docPayload(doc), 7)
+//@   proves "file-7-round-trip": result1 == nil ==> result0 != nil && docRaw(result0, 7) === docRaw(doc, 7)
+//@   proves "record-field-8": rawDocField(docPayload(doc), 8) === docRaw(doc, 8)
+//@   proves "same-field-8-in-the-decoded-payload": result1 == nil ==> rawDocField(envPayload(blob), 8) === rawDocField(docPayload(doc), 8)
+//@   proves "file-8-is-the-decoded-field": result1 == nil ==> result0 != nil && docRaw(result0, 8) === rawDocField(envPayload(blob), 8)
+//@   proves "file-8-is-the-record-field": result1 == nil ==> docRaw(result0, 8) === rawDocField(docPayload(doc), 8)
+//@   proves "file-8-round-trip": result1 == nil ==> result0 != nil && docRaw(result0, 8) === docRaw(doc, 8)
+//@   proves "record-field-9": rawDocField(docPayload(doc), 9) === docRaw(doc, 9)
+//@   proves "same-field-9-in-the-decoded-payload": result1 == nil ==> rawDocField(envPayload(blob), 9) === rawDocField(docPayload(doc), 9)
+//@   proves "file-9-is-the-decoded-field": result1 == nil ==> result0 != nil && docRaw(result0, 9) === rawDocField(envPayload(blob), 9)
+//@   proves "file-9-is-the-record-field": result1 == nil ==> docRaw(result0, 9) === rawDocField(docPayload(doc), 9)
+//@   proves "file-9-round-trip": result1 == nil ==> result0 != nil && docRaw(result0, 9) === docRaw(doc, 9)
+//@   proves "record-field-10": rawDocField(docPayload(doc), 10) === docRaw(doc, 10)
+//@   proves "same-field-10-in-the-decoded-payload": result1 == nil ==> rawDocField(envPayload(blob), 10) === rawDocField(docPayload(doc), 10)
+//@   proves "file-10-is-the-decoded-field": result1 == nil ==> result0 != nil && docRaw(result0, 10) === rawDocField(envPayload(blob), 10)
+//@   proves "file-10-is-the-record-field": result1 == nil ==> docRaw(result0, 10) === rawDocField(docPayload(doc), 10)
+//@   proves "file-10-round-trip": result1 == nil ==> result0 != nil && docRaw(result0, 10) === docRaw(doc, 10)
+//@   proves "record-field-11": rawDocField(docPayload(doc), 11) === docRaw(doc, 11)
+//@   proves "same-field-11-in-the-decoded-payload": result1 == nil ==> rawDocField(envPayload(blob), 11) === rawDocField(docPayload(doc), 11)
+//@   proves "file-11-is-the-decoded-field": result1 == nil ==> result0 != nil && docRaw(result0, 11) === rawDocField(envPayload(blob), 11)
+//@   proves "file-11-is-the-record-field": result1 == nil ==> docRaw(result0, 11) === rawDocField(docPayload(doc), 11)
+//@   proves "file-11-round-trip": result1 == nil ==> result0 != nil && docRaw(result0, 11) === docRaw(doc, 11)
+//@   proves "record-field-12": rawDocField(docPayload(doc), 12) === docRaw(doc, 12)
+//@   proves "same-field-12-in-the-decoded-payload": result1 == nil ==> rawDocField(envPayload(blob), 12) === rawDocField(docPayload(doc), 12)
+//@   proves "file-12-is-the-decoded-field": result1 == nil ==> result0 != nil && docRaw(result0, 12) === rawDocField(envPayload(blob), 12)
+//@   proves "file-12-is-the-record-field": result1 == nil ==> docRaw(result0, 12) === rawDocField(docPayload(doc), 12)
+//@   proves "file-12-round-trip": result1 == nil ==> result0 != nil && docRaw(result0, 12) === docRaw(doc, 12)
+//@   proves "record-field-13": rawDocField(docPayload(doc), 13) === docRaw(doc, 13)
+//@   proves "same-field-13-in-the-decoded-payload": result1 == nil ==> rawDocField(envPayload(blob), 13) === rawDocField(docPayload(doc), 13)
+//@   proves "file-13-is-the-decoded-field": result1 == nil ==> result0 != nil && docRaw(result0, 13) === rawDocField(envPayload(blob), 13)
+//@   proves "file-13-is-the-record-field": result1 == nil ==> docRaw(result0, 13) === rawDocField(docPayload(doc), 13)
+//@   proves "file-13-round-trip": result1 == nil ==> result0 != nil && docRaw(result0, 13) === docRaw(doc, 13)
+//@   ensures "same-raw-bytes-in-file-0": result1 == nil ==> result0 != nil && docRaw(result0, 0) === docRaw(doc, 0)
+//@   ensures "same-raw-bytes-in-file-1": result1 == nil ==> result0 != nil && docRaw(result0, 1) === docRaw(doc, 1)
+//@   ensures "same-raw-bytes-in-file-2": result1 == nil ==> result0 != nil && docRaw(result0, 2) === docRaw(doc, 2)
+//@   ensures "same-raw-bytes-in-file-3": result1 == nil ==> result0 != nil && docRaw(result0, 3) === docRaw(doc, 3)
+//@   ensures "same-raw-bytes-in-file-4": result1 == nil ==> result0 != nil && docRaw(result0, 4) === docRaw(doc, 4)
+//@   ensures "same-raw-bytes-in-file-5": result1 == nil ==> result0 != nil && docRaw(result0, 5) === docRaw(doc, 5)
+//@   ensures "same-raw-bytes-in-file-6": result1 == nil ==> result0 != nil && docRaw(result0, 6) === docRaw(doc, 6)
+//@   ensures "same-raw-bytes-in-file-7": result1 == nil ==> result0 != nil && docRaw(result0, 7) === docRaw(doc, 7)
+//@   ensures "same-raw-bytes-in-file-8": result1 == nil ==> result0 != nil && docRaw(result0, 8) === docRaw(doc, 8)
+//@   ensures "same-raw-bytes-in-file-9": result1 == nil ==> result0 != nil && docRaw(result0, 9) === docRaw(doc, 9)
+//@   ensures "same-raw-bytes-in-file-10": result1 == nil ==> result0 != nil && docRaw(result0, 10) === docRaw(doc, 10)
+//@   ensures "same-raw-bytes-in-file-11": result1 == nil ==> result0 != nil && docRaw(result0, 11) === docRaw(doc, 11)
+//@   ensures "same-raw-bytes-in-file-12": result1 == nil ==> result0 != nil && docRaw(result0, 12) === docRaw(doc, 12)
+//@   ensures "same-raw-bytes-in-file-13": result1 == nil ==> result0 != nil && docRaw(result0, 13) === docRaw(doc, 13)
+//@   assigns nothing
+//@   safety all
+
 // NewCardAccess is verified (DecodeSecurityInfos carries the ASN.1 boundary); NewSOD and NewEFDIR parse CMS / directory
 // structures and are trusted boundaries for the serialisation property: private copy of the bytes, (nil, nil) for an absent file.
 //@ func NewCardAccess
